@@ -188,7 +188,32 @@ func runC20(r *vk.Run) {
 		for _, cs := range inv {
 			m, keyClash, builtinClash := expectedContainerLabels3(cs)
 			if keyClash {
+				// two keys of one container share a sanitised name: which value the name carries is not stated,
+				// but it is the same at every listing -- the selection is repeated over fresh label maps
 				c.Count("excluded_collision", 1)
+				query := fmt.Sprintf("{%s=%s}", sk, quoteLogQL(v))
+				first := ""
+				for rep := 0; rep < 12; rep++ {
+					inv2 := make([]CSpec, len(inv))
+					for i, cs2 := range inv {
+						inv2[i] = cs2
+						inv2[i].Labels = map[string]string{}
+						for lk, lv := range cs2.Labels {
+							inv2[i].Labels[lk] = lv
+						}
+					}
+					fd := newFakeDocker(inv2)
+					_, err := evalQuery(dockerQuerier(fd), query, EvalP{Start: 1600000000e9, End: 1800000000e9, Step: time.Second, Limit: -1})
+					c.Eval(1)
+					got := fmt.Sprint(fd.OpenedIDs(), err != nil)
+					if first == "" {
+						first = got
+					} else if got != first {
+						c.Fail("", fmt.Sprintf("selector %s over containers with colliding keys selected %s at one listing and %s at another", query, first, got), map[string]any{"inventory": inv, "query": query})
+						return
+					}
+				}
+				c.Count("collision_selections_repeated", 1)
 				return
 			}
 			if builtinClash {
